@@ -209,7 +209,24 @@ func (dl *dialLimiter) AddDialJob(dj *dialJob) {
 func (dl *dialLimiter) clearAllPeerDials(p peer.ID) {
 	dl.lk.Lock()
 	defer dl.lk.Unlock()
-	delete(dl.waitingOnPeerLimit, p)
+	// Only drop the jobs whose context is done. The caller is a dial worker that is
+	// shutting down; by the time it gets here a new worker for the same peer may
+	// already have queued live jobs, which must not be lost.
+	waitlist := dl.waitingOnPeerLimit[p]
+	kept := waitlist[:0]
+	for _, j := range waitlist {
+		if !j.cancelled() {
+			kept = append(kept, j)
+		}
+	}
+	for i := len(kept); i < len(waitlist); i++ {
+		waitlist[i] = nil // clear out memory
+	}
+	if len(kept) == 0 {
+		delete(dl.waitingOnPeerLimit, p)
+	} else {
+		dl.waitingOnPeerLimit[p] = kept
+	}
 	log.Debug("[limiter] clearing all peer dials", "peer", p)
 	// NB: the waitingOnFd list doesn't need to be cleaned out here, we will
 	// remove them as we encounter them because they are 'cancelled' at this
